@@ -49,7 +49,6 @@ inductive Obj where
   | cell (v : Value) (loopGlobal : Bool)
   | err (v : Value)
   | clos (c : Closure)
-  | cfn (const : Nat) (free : List Nat)                       -- VM model
   | arrIt (store off len : Nat) (i : Nat)                     -- VM model: ArrayIterator over a live slice
   | listIt (kind : Nat) (items : List (Value × Value)) (i : Nat)   -- VM model: string (0) / bytes (1) / undefined (2) iterators
   | mapIt (m : Nat) (keys : List Bytes) (i : Nat)             -- VM model: MapIterator (keys fixed, values looked up live)
